@@ -463,6 +463,7 @@ func init() { registerReplay("C01", propC01) }
 
 const c01Rule = "rapid-generated: carrier x K concurrent RPCs on one channel (K up to 16, thorough 64), each with its own kind, request and response lists (0..12 messages: empty messages, zero-length encodings, maps/Any/unknown fields, payloads up to 1 MiB), per-op pacing, full-duplex bidi on inproc; " +
 	"plus forced size classes (1, 5, 17 MiB; thorough 48 and 96 MiB) on every carrier; every message is tagged (rpc, direction, index); oracle at every receive: i-th message obtained equals i-th message of the peer's list and the peer had started sending it; at a successful end both sequences complete; " +
+	"also generated since the seeded rounds: senders that scribble over a message right after sending it, header-first clients, receivers decoding into one reused message, chopped reads, encoded sizes within 12 bytes of every power of two from 64 B to 128 KiB, handlers attaching the protocol's own status keys as metadata (must change nothing), wrapped status errors; " +
 	"grpc-go over bufconn arbitrates any deviation; non-trivial = >=2 messages in a direction, or an empty message, or a message >=64 KiB, or K>=2; distinct by case hash"
 
 func TestC01(t *testing.T) {
